@@ -45,14 +45,16 @@ AllRoundTrip == \A name \in DOMAIN Ser : RoundTrips(name)
 Shapes == {"plain", "lead0_1", "lead0_2", "lead0_nibble", "highbit"}
 Pwds == {"none", "empty", "ascii", "utf8", "long"}
 VARIABLES c, done
-Cases == {[kind |-> "key", ser |-> s, shape |-> sh, pwd |-> "none"] : s \in {"privhex", "pubhex", "compressed", "pkix"}, sh \in Shapes} \cup
+Cases == {[kind |-> "key", ser |-> s, shape |-> sh, pwd |-> "none"] : s \in {"privhex", "pubhex", "pkix"}, sh \in Shapes} \cup
+         \* the compressed form keeps x and one bit of y: both parities for every shape of x (y shapes matter only through the parity)
+         {[kind |-> "key", ser |-> "compressed", shape |-> sh, pwd |-> "none", par |-> pa] : sh \in Shapes, pa \in {"even", "odd"}} \cup
          {[kind |-> "key", ser |-> "pkcs8", shape |-> sh, pwd |-> p] : sh \in Shapes, p \in Pwds} \cup
          {[kind |-> "sig", ser |-> "asn1sig", shape |-> sh, pwd |-> "none"] : sh \in Shapes} \cup
          {[kind |-> "cipher", ser |-> "asn1cipher", shape |-> sh, pwd |-> "none"] : sh \in {"plain", "lead0_1"}} \cup
          {[kind |-> "wrongpwd", ser |-> "pkcs8", shape |-> "plain", pwd |-> p] : p \in {"ascii", "utf8", "long"}} \cup
          {[kind |-> "loader", ser |-> l, shape |-> m, pwd |-> "none"] :
             l \in {"X509KeyPair", "GMX509KeyPairsSingle", "GMX509KeyPairs", "LoadX509KeyPair", "LoadGMX509KeyPair", "LoadGMX509KeyPairs"},
-            m \in {"match", "otherkey", "swapped"}}
+            m \in {"match", "otherkey", "swapped", "negated"}}   \* negated: the key n-d, whose point has the same x
 Expect(x) == CASE x.kind \in {"key", "sig", "cipher"} -> [roundtrip |-> TRUE]
                [] x.kind = "wrongpwd" -> [error |-> TRUE]
                [] x.kind = "loader" -> [accept |-> x.shape = "match"]
